@@ -15,6 +15,7 @@ import (
 	"context"
 	"fmt"
 	"math"
+	"sort"
 	"strconv"
 	"sync/atomic"
 	"testing"
@@ -625,7 +626,10 @@ func (c *c29Ctx) runBlock(t *c29Tier, from, to, onlyExpr int) error {
 			case exp.IsScalar:
 				outcome = "scalar " + ag_F(got.Scalar)
 			case len(got.Vector) > 0:
-				outcome = ag_VecString(got.Vector)
+				// canonical order: the engine's order of groups/count_values series is unspecified
+				sv := append([]ag_Sample{}, got.Vector...)
+				sort.Slice(sv, func(i, j int) bool { return ag_LKey(sv[i].L) < ag_LKey(sv[j].L) })
+				outcome = ag_VecString(sv)
 			}
 			if outcome != "empty" {
 				r.Distinct("distinct_nontrivial", e.Form()+"|"+outcome)
